@@ -439,6 +439,96 @@ def merge_accumulators(repo, cls, fn, loop, report_ok, report_bad):
                 'lost' % (norm_stmt(a)[:70], U(args[0])[:30], v))
 
 
+def desugar_slices(fn):
+    """Rewrite slice objects into the end-variable idiom the rule reads:
+
+        dims = slice(lo, hi)      ->   dims__stop = hi
+        a[:, dims]                ->   a[:, lo:dims__stop]
+        dims.stop / dims.start    ->   dims__stop / lo
+
+    `lo` is substituted textually, which is exact as long as none of its
+    names is assigned between the definition and the use; otherwise the use
+    is left alone.  Returns fn itself when there is nothing to rewrite."""
+    import copy
+    defs = {}
+    for n in ast.walk(fn):
+        if isinstance(n, ast.Assign) and len(n.targets) == 1 and isinstance(
+                n.targets[0], ast.Name) and isinstance(n.value, ast.Call) \
+                and U(n.value.func) == 'slice' and len(n.value.args) == 2 \
+                and not n.value.keywords:
+            defs.setdefault(n.targets[0].id, []).append(n)
+    defs = {k: v[0] for k, v in defs.items() if len(v) == 1}
+    if not defs:
+        return fn
+    new = copy.deepcopy(fn)
+    ndefs = {}
+    for n in ast.walk(new):
+        if isinstance(n, ast.Assign) and len(n.targets) == 1 and isinstance(
+                n.targets[0], ast.Name) and n.targets[0].id in defs \
+                and isinstance(n.value, ast.Call) and U(
+                    n.value.func) == 'slice':
+            ndefs[n.targets[0].id] = (n, n.value.args[0], n.value.args[1])
+
+    def stable(name, use):
+        d, lo, hi = ndefs[name]
+        lo_names = _names(lo)
+        for x in ast.walk(new):
+            tg = []
+            if isinstance(x, ast.Assign):
+                tg = x.targets
+            elif isinstance(x, ast.AugAssign):
+                tg = [x.target]
+            for t in tg:
+                for y in ast.walk(t):
+                    if isinstance(y, ast.Name) and y.id in lo_names \
+                            and d.lineno < x.lineno <= use.lineno:
+                        return False
+        return True
+
+    class R(ast.NodeTransformer):
+        def visit_Subscript(self, x):
+            self.generic_visit(x)
+            elts = x.slice.elts if isinstance(x.slice, ast.Tuple) \
+                else [x.slice]
+            out = []
+            for e in elts:
+                if isinstance(e, ast.Name) and e.id in ndefs and stable(
+                        e.id, x):
+                    lo = copy.deepcopy(ndefs[e.id][1])
+                    e = ast.copy_location(ast.Slice(
+                        lower=lo, upper=ast.copy_location(ast.Name(
+                            id=e.id + '__stop', ctx=ast.Load()), e),
+                        step=None), e)
+                out.append(e)
+            if isinstance(x.slice, ast.Tuple):
+                x.slice.elts = out
+            else:
+                x.slice = out[0]
+            return x
+
+        def visit_Attribute(self, x):
+            self.generic_visit(x)
+            if isinstance(x.value, ast.Name) and x.value.id in ndefs:
+                if x.attr == 'stop':
+                    return ast.copy_location(ast.Name(
+                        id=x.value.id + '__stop', ctx=ast.Load()), x)
+                if x.attr == 'start' and stable(x.value.id, x):
+                    return ast.copy_location(copy.deepcopy(
+                        ndefs[x.value.id][1]), x)
+            return x
+    R().visit(new)
+    for name, (d, lo, hi) in ndefs.items():
+        d.targets = [ast.copy_location(ast.Name(
+            id=name + '__stop', ctx=ast.Store()), d.targets[0])]
+        d.value = hi
+    ast.fix_missing_locations(new)
+    for parent in ast.walk(new):
+        for child in ast.iter_child_nodes(parent):
+            child._parent = parent
+    new._parent = getattr(fn, '_parent', None)
+    return new
+
+
 def scoped(name, classes=None, files=None, floor=1):
     """R05.4 restricted to some classes / files (same rule, own floor)."""
     def rule(ctx, repo):
@@ -464,6 +554,7 @@ def r05_4(ctx, repo, classes=None, files=None, floor=24):
             continue
         if files is not None and rel not in files:
             continue
+        fn = desugar_slices(fn)
         zeros = _zero_inits(fn)
         for loop in ast.walk(fn):
             if isinstance(loop, ast.For):
